@@ -80,7 +80,9 @@ let handle_src (w : Stdlib.String.t list) : Stdlib.String.t =
   | ["aes"; d; k; b] -> sres_bytes (Model.src_aes (d = "e") (unhex k) (unhex b))
   | [("mode" | "modes"); d; t; k; iv; data] ->
       let iv16 = Model.firstn (nat_of_int 16) (unhex iv) in
-      (match Model.src_mode (d = "e") (n_of_int (int_of_string t)) (unhex k) iv16 (blocks (unhex data)) with
+      (* through the translated factory and constructor chain (AesFactory::createCryMaster); Model.src_mode is the same
+         without the factory and is what SRC_mode_stream is stated for *)
+      (match Model.src_mode_factory (d = "e") (n_of_int (int_of_string t)) (unhex k) iv16 (blocks (unhex data)) with
        | SOk r -> hex (List.concat r)
        | SErr w -> let w = coqstr w in if w = "NULL" then "NULL" else "ERR " ^ w)
   | ["hstr"; a; data] -> sres_bytes (Model.src_hash_string (n_of_int (int_of_string a)) (unhex data))
